@@ -327,48 +327,38 @@ def get_barycentric_coordinates_plane(a, b, c):
     v1 = c - a
     v2 = c - b
 
-    # Make sure that the shortest edge is included in the calculation to keep
-    # the products a * b - c * d as small as possible to preserve accuracy
     d00 = v0.dot(v0)
     d11 = v1.dot(v1)
     d22 = v2.dot(v2)
-    if d00 <= d22:
-        # Use v0 and v1 to calculate barycentric coordinates
-        d01 = v0.dot(v1)
-        denominator = d00 * d11 - d01 * d01
-        if abs(denominator) < EPSILON:
-            # Degenerate triangle, return coordinates along longest edge
-            if d00 > d11:
-                u, v = get_barycentric_coordinates_line(a, b)
-                w = 0.0
-            else:
-                u, w = get_barycentric_coordinates_line(a, c)
-                v = 0.0
-        else:
-            a0 = a.dot(v0)
-            a1 = a.dot(v1)
-            v = (d01 * a1 - d11 * a0) / denominator
-            w = (d01 * a0 - d00 * a1) / denominator
-            u = 1.0 - v - w
-    else:
-        # Use v1 and v2 to calculate barycentric coordinates
-        d12 = v1.dot(v2)
 
-        denominator = d11 * d22 - d12 * d12
-        if abs(denominator) < EPSILON:
-            # Degenerate triangle, return coordinates along longest edge
-            if d11 > d22:
-                u, w = get_barycentric_coordinates_line(a, c)
-                v = 0.0
-            else:
-                v, w = get_barycentric_coordinates_line(b, c)
-                u = 0.0
+    # The normal is computed from the two shortest edges and the coordinates
+    # from cross products with it. This avoids the cancellation of the Gram
+    # determinant d00 * d11 - d01 * d01, which squares the condition number
+    # and makes the coordinates of needle-like triangles inaccurate.
+    if d00 <= d22:
+        n = np.cross(v0, v1)
+    else:
+        n = np.cross(v1, v2)
+    nn = n.dot(n)
+    if nn < EPSILON * max(d00 * d11, max(d11 * d22, d00 * d22)) or nn == 0.0:
+        # Degenerate triangle, return coordinates along longest edge
+        if d00 > d11 and d00 > d22:
+            u, v = get_barycentric_coordinates_line(a, b)
+            w = 0.0
+        elif d11 > d22:
+            u, w = get_barycentric_coordinates_line(a, c)
+            v = 0.0
         else:
-            c1 = c.dot(v1)
-            c2 = c.dot(v2)
-            u = (d22 * c1 - d12 * c2) / denominator
-            v = (d11 * c2 - d12 * c1) / denominator
-            w = 1.0 - u - v
+            v, w = get_barycentric_coordinates_line(b, c)
+            u = 0.0
+    elif d00 <= d22:
+        v = np.cross(v1, a).dot(n) / nn
+        w = np.cross(a, v0).dot(n) / nn
+        u = 1.0 - v - w
+    else:
+        u = np.cross(c, v2).dot(n) / nn
+        v = np.cross(v1, c).dot(n) / nn
+        w = 1.0 - u - v
     return u, v, w
 
 
